@@ -68,6 +68,7 @@ class World:
             raise InvalidCase("no systems")
         for s in case["scripts"]:
             self.scripts.setdefault((int(s["actor"]) % n0, int(s["t"]) % 8), []).extend(s["actions"])
+        self.max_total = 14 + n0
 
     def order(self):
         return [t for t, _ in sorted(self.live.items(), key=lambda kv: (-kv[1][0], kv[1][1]))]
@@ -113,7 +114,7 @@ class World:
                 self.labels.add(f"add-{rel}")
                 if rel != "lower" and mypos is not None and mypos < len(order) - 1:
                     self.nontrivial = True
-                if len(self.all) < 14:
+                if len(self.all) < self.max_total:
                     if act.get("reuse") and self.free_ids:
                         self.labels.add("add-reused-id")
                         self.register(prio, sid=self.free_ids.pop())
@@ -161,6 +162,8 @@ def run_case(case):
             if runs != start:
                 raise Violation("quiet-step-order", f"timestep {t}: ran {runs}, expected {start}")
         check(w.model.systems.timestep == t + 1, "timestep", f"timestep is {w.model.systems.timestep} after {t + 1} steps")
+    if len(case["systems"]) > 32:
+        w.labels.add("queue>32")
     return {"nontrivial": w.nontrivial, "labels": sorted(w.labels)}
 
 
@@ -170,12 +173,23 @@ def _action():
     return wone_of(rem, rem, add)
 
 
+def _large(tier):
+    """long queues: block-wise / index-based execution only differs from a plain loop beyond a size threshold"""
+    from vf.fixtures import near_pow2
+    act = wone_of(st.fixed_dictionaries({"a": st.just("remove"), "target": st.integers(0, 140)}),
+                  st.fixed_dictionaries({"a": st.just("add"), "prio": st.integers(0, 3), "reuse": st.booleans()}))
+    script = st.fixed_dictionaries({"actor": st.integers(0, 140), "t": st.integers(0, 2), "actions": st.lists(act, min_size=1, max_size=2)})
+    return st.fixed_dictionaries({"systems": near_pow2(17, 130).flatmap(lambda n: st.lists(st.integers(0, 2), min_size=n, max_size=n)),
+                                  "scripts": st.lists(script, min_size=1, max_size=4), "steps": st.just(3), "eq": st.booleans()})
+
+
 def strategy(tier):
     script = st.fixed_dictionaries({"actor": st.integers(0, 5), "t": st.integers(0, 3),
                                     "actions": st.lists(_action(), min_size=1, max_size=3)})
-    return st.fixed_dictionaries({"systems": st.lists(st.integers(0, 2), min_size=2, max_size=6),
-                                  "scripts": st.lists(script, min_size=1, max_size=3),
-                                  "steps": st.integers(3, 5), "eq": st.booleans()})
+    small = st.fixed_dictionaries({"systems": st.lists(st.integers(0, 2), min_size=2, max_size=6),
+                                   "scripts": st.lists(script, min_size=1, max_size=3),
+                                   "steps": st.integers(3, 5), "eq": st.booleans()})
+    return wone_of(*([small] * 9 + [_large(tier)]))
 
 
 def exhaustive(tier):
